@@ -1,3 +1,5 @@
 -- Root of the `PasslibVerif` library: everything that must build.
 import PasslibVerif.Props.C06
 import PasslibVerif.Props.C12
+import PasslibVerif.Props.C13
+import PasslibVerif.Props.C14
